@@ -276,7 +276,7 @@ def _fields_mutated_in_place(idx, methods):
 # ------------------------------------------------------------------------------- D1
 def d1_nomut(ctx, idx):
     r = ctx.rule('D1.NOMUT', "the caller's cost matrix is never written: compute only reads it, pad_matrix copies "
-                 "each row into a new outer list, no in-place-updated field may alias it", floor=29)
+                 "each row into a new outer list, no in-place-updated field may alias it", floor=14)
     with r:
         ci, methods = _methods(idx)
         comp = idx.func(cm.MUNKRES + '.compute')
@@ -339,19 +339,26 @@ def d1_nomut(ctx, idx):
                             lib.loc(comp, cst))
         # (c) pad_matrix
         _fresh_matrix(r, idx, pad, 'matrix', 'Munkres.pad_matrix')
-        # (d) steps and helpers: no store through a parameter
-        for name in sorted(methods):
-            fi = methods[name]
-            if name in ('compute', 'pad_matrix', '__init__', 'make_cost_matrix') or not fi.params:
-                continue
-            muts, _ = cm.param_mutations(fi, idx)
-            if muts:
-                for node, how, p in muts:
-                    r.violation('Munkres.%s: parameter %s' % (name, p), 'a helper of the solver writes through its parameter '
-                                '(%s); only instance fields may be updated' % how, lib.loc(fi, node))
-            else:
-                r.ok('Munkres.%s' % name, 'stores only reach instance fields / fresh locals', fi.loc)
-        # (e) make_cost_matrix
+        # (d) steps and helpers: no store through a parameter (one obligation for the whole set: helpers come and go in refactorings)
+    clean = []
+    dirty = False
+    for name in sorted(methods):
+        fi = methods[name]
+        if name in ('compute', 'pad_matrix', '__init__', 'make_cost_matrix') or not fi.params:
+            continue
+        muts, _ = cm.param_mutations(fi, idx)
+        if muts:
+            dirty = True
+            for node, how, p in muts:
+                r.violation('Munkres.%s: parameter %s' % (name, p), 'a helper of the solver writes through its parameter '
+                            '(%s); only instance fields may be updated' % how, lib.loc(fi, node))
+        else:
+            clean.append(name)
+    if not dirty:
+        if len(clean) < 6:
+            raise AnalysisError('only %d step/helper methods of Munkres found' % len(clean))
+        r.ok('Munkres steps and helpers', 'stores only reach instance fields / fresh locals in %d methods' % len(clean), ci.loc)
+    # (e) make_cost_matrix
         mcm = idx.func(cm.MUNKRES_MOD + '.make_cost_matrix')
         _fresh_matrix(r, idx, mcm, 'profit_matrix', 'make_cost_matrix')
 
@@ -364,7 +371,7 @@ def _elements(expr):
     """Element expressions of a list-building expression, or None when the shape is not recognised."""
     if isinstance(expr, ast.List):
         return list(expr.elts)
-    if isinstance(expr, ast.ListComp):
+    if isinstance(expr, (ast.ListComp, ast.GeneratorExp)):
         return [expr.elt]
     if isinstance(expr, ast.BinOp) and isinstance(expr.op, ast.Mult):
         for side in (expr.left, expr.right):
@@ -524,10 +531,26 @@ def d2_init(ctx, idx):
 
 
 
+N_ALIASES = set()
+
+
+def _n_aliases(comp, selfn):
+    """locals of compute that hold the same value as self.n (`self.n = size = len(self.C)`, `size = self.n`)."""
+    out = set()
+    for n in walk_own(comp.node):
+        if isinstance(n, ast.Assign):
+            if any(cm.is_self_attr(t, selfn, 'n') for t in n.targets):
+                out |= {t.id for t in n.targets if isinstance(t, ast.Name)}
+            elif len(n.targets) == 1 and isinstance(n.targets[0], ast.Name) and cm.is_self_attr(n.value, selfn, 'n'):
+                out.add(n.targets[0].id)
+    # only names bound exactly once
+    return {x for x in out if len([1 for n in walk_own(comp.node) if isinstance(n, ast.Name) and n.id == x and isinstance(n.ctx, ast.Store)]) == 1}
+
+
 def _linear_in_n(e, selfn):
     """(a, b) with e == a * self.n + b, or None."""
     e = nf.canon(e)
-    if cm.is_self_attr(e, selfn, 'n'):
+    if cm.is_self_attr(e, selfn, 'n') or (isinstance(e, ast.Name) and e.id in N_ALIASES):
         return (1, 0)
     if isinstance(e, ast.Constant) and isinstance(e.value, int) and not isinstance(e.value, bool):
         return (0, e.value)
@@ -548,6 +571,8 @@ def _linear_in_n(e, selfn):
 
 
 def _path_capacity(r, comp, selfn, stmt, methods):
+    N_ALIASES.clear()
+    N_ALIASES.update(_n_aliases(comp, selfn))
     construct = 'Munkres.compute: self.path capacity'
     v = stmt.value
     where = lib.loc(comp, stmt)
